@@ -185,8 +185,7 @@ EbErrorType encode_context_ctor(EncodeContext *encode_context_ptr, EbPtr object_
     EB_CREATE_MUTEX(encode_context_ptr->stat_file_mutex);
     encode_context_ptr->num_lap_buffers = 0; //lap not supported for now
     int *num_lap_buffers                = &encode_context_ptr->num_lap_buffers;
-    create_stats_buffer(&encode_context_ptr->frame_stats_buffer,
-                        &encode_context_ptr->stats_buf_context,
-                        *num_lap_buffers);
-    return EB_ErrorNone;
+    return create_stats_buffer(&encode_context_ptr->frame_stats_buffer,
+                               &encode_context_ptr->stats_buf_context,
+                               *num_lap_buffers);
 }
